@@ -74,6 +74,19 @@ pub(crate) fn tokenize(
     fileid: usize,
     filetext: &str,
 ) -> Result<TokenResult, TokenizerError> {
+    tokenize_nested(filename, fileid, filetext, 0)
+}
+
+// the maximum nesting depth of /include directives. A file that includes itself (directly or through
+// another file) would otherwise recurse until the stack overflows
+pub(crate) const MAX_INCLUDE_DEPTH: usize = 32;
+
+fn tokenize_nested(
+    filename: &Filename,
+    fileid: usize,
+    filetext: &str,
+    include_depth: usize,
+) -> Result<TokenResult, TokenizerError> {
     let mut filenames: Vec<Filename> = vec![filename.clone()];
     let mut filedatas: Vec<String> = vec![filetext.to_owned()];
     let filebytes = filetext.as_bytes();
@@ -122,12 +135,18 @@ pub(crate) fn tokenize(
 
                 // check if incname is an accessible file
                 let incpathref = Path::new(&incfilename);
-                let loadresult = loader::load(incpathref);
-                if let Ok(incfiledata) = loadresult {
-                    let mut tokresult = tokenize(
+                let loadresult = if include_depth < MAX_INCLUDE_DEPTH {
+                    loader::load(incpathref).ok()
+                } else {
+                    // the include files are nested too deeply, most likely this is a circular include
+                    None
+                };
+                if let Some(incfiledata) = loadresult {
+                    let mut tokresult = tokenize_nested(
                         &Filename::new(incfilename, incname),
                         next_fileid,
                         &incfiledata,
+                        include_depth + 1,
                     )?;
 
                     next_fileid += tokresult.filenames.len();
